@@ -119,3 +119,10 @@ Proof.
   intros cfg fn tok now chunk f0 ws k inited j Ht Hn Hl Hs. unfold write_error_effects.
   rewrite table_no_swallow. now apply C17_atomic_under_unwinding_l.
 Qed.
+
+Lemma C17_flat_add_never_reuses_an_id_l :
+  forall (st : flat) (s : str) k, flat_ok st = true ->
+  let st' := fapply (firstn k (add_effects st s)) st in
+  flat_ok st' = true /\
+  (fl_recs st' = fl_recs st \/ fl_recs st' = fl_recs st ++ [(fl_next st, s)]).
+Proof. exact flat_add_crash_safe. Qed.
